@@ -292,6 +292,10 @@ func dataset(name string) []core.SeriesSpec {
 	if d, ok := dsCache[name]; ok {
 		return d
 	}
+	if name == "C06" {
+		dsCache[name] = c06Data()
+		return dsCache[name]
+	}
 	d := gen.Dataset(name)
 	dsCache[name] = d
 	return d
@@ -337,6 +341,11 @@ func init() {
 				{k.List, []string{"D1", "D2"}, windowsQuick(), lb},
 			}
 		}
+		// histogram_quantile over the bucket sets of C06 (equal bounds spelled differently,
+		// missing +Inf, a single bucket, non-numeric le)
+		hq := []string{`histogram_quantile(0.5, h_bucket)`, `histogram_quantile(0.9, h_bucket{l="3"})`, `histogram_quantile(0.5, rate(h_bucket[1m]))`, `histogram_quantile(0.99, sum by (le) (h_bucket))`,
+			`histogram_quantile(0.25, h_bucket{l=~"1|2"})`, `histogram_quantile(1, h_bucket)`, `histogram_quantile(0, h_bucket{l="3"})`}
+		plans = append(plans, plan{hq, []string{"C06"}, windowsQuick(), lb})
 		c.Rep.Bounds["gomaxprocs"] = "4 everywhere; 1, 3, 16 over the full alphabet at depth 1"
 		c.Rep.Bounds["datasets"] = "D1 regular, D2 irregular/gap/stale/late, D3 NaN/Inf/negative/resets/name-only, D4 empty, D5 label names sorting before __name__ / non-ASCII values"
 		for _, p := range plans {
